@@ -211,6 +211,7 @@ def make_cases(run):
     cases += [("valid", d) for d in valid]
     cases += [("untyped", G.gen_untyped(rng)) for _ in range(nunt)]
     cases += [("interleave-spec", d) for d in G.gen_interleave_spec(rng, 30 if quick else 400)]
+    cases += [("level-indexes-spec", d) for d in G.gen_level_indexes_spec(rng, 150 if quick else 3000)]
     for d, fw in G.gen_attached_spec(rng, 120 if quick else 1500):
         FW[d] = fw
         cases.append(("attached-spec", d))
@@ -321,7 +322,10 @@ def judge(run, cases, model, cres, exe, drv, limit):
                 # code as committed; seen only when a switch of the model is off
                 run.violation("index-array-not-injective", "an index attribute with duplicate values is used for PUs / NUMA nodes of %r" % desc[:100], replay_text(desc))
             else:
-                a, b = sorted(c["objs"]), sorted(m["objs"])
+                a, b = sorted(l for l in c["objs"] if not l.startswith("O 13 ")), sorted(l for l in m["objs"] if not l.startswith("O 13 "))
+                gmissing = [l for l in m["objs"] if l.startswith("O 13 ") and l not in set(c["objs"])]
+                if a == b and gmissing:
+                    b = b + gmissing      # a Group level the description gives structure to, with its os_index values, must be loaded
                 keys = [(kv["type"], kv["width"]) for kv in (dict(x.split("=", 1) for x in l.split()[2:] if "=" in x) for l in m["L"]) if 5 <= int(kv["type"]) <= 12]
                 if a != b and len(set(keys)) != len(keys):
                     run.violation("merge-equal-cache-size-overwritten", "two cache levels of the same type with identical cpusets are merged by merge_insert_equal(), which overwrites cache.size with the line size (topology.c: old->attr->cache.size = new->attr->cache.linesize)",
@@ -425,6 +429,23 @@ def spec_interleaving(run, cases, cres):
             run.violation("spec:interleaving-order", "type-based index interleaving of %r is not the documented one: %s" % (desc, bad), replay_text(desc, bad))
 
 
+def spec_level_indexes(run, cases, cres):
+    """indexes= on any level, caches and groups included (gen/synthetic_gen.py lvl_expected, independent of the model):
+    the objects of that level carry exactly the written os_index values, each on the PUs of its written position."""
+    for idx, (kind, d) in enumerate(cases):
+        exp = G.lvl_expected(d)
+        c = cres.get(str(idx))
+        if exp is None or c is None or not c.get("loaded"):
+            continue
+        ty, want = exp
+        got = sorted((int(l.split()[2]), tuple(sorted(int(x) for x in l.split()[4].split(",")))) for l in c["objs"] if l.startswith("O %d " % ty))
+        ok = got == want
+        run.bump("spec:level-indexes:" + ("ok" if ok else "MISMATCH"))
+        if not ok:
+            run.violation("spec:level-os-index", "the objects of type %d loaded from %r do not carry the written os_index values: loaded %s..., written %s..." % (
+                ty, d[:100], [x for x in got if x not in want][:3], [x for x in want if x not in got][:3]), replay_text(d))
+
+
 def spec_distinct_indexes(run, cases, cres, exe):
     """Independent of the model: the NUMA nodes of a loaded topology have distinct os_indexes, and a canonical
     description loads exactly as many PUs as the product of its arities (a duplicate PU index merges two PUs)."""
@@ -483,7 +504,7 @@ def filter_pass(run, cases, model, cres, exe):
         if d in FW:
             words = [FW[d]] + (["lD"] if FW[d] != "lD" else [])
         elif "[" in d or re.search(r"(?i)l[123]i", d) or "memorysidecachesize" in d:
-            types = sorted(set(int(l.split()[1]) for l in m["objs"] if l.startswith("O ") and l.split()[1] != "4"))
+            types = sorted(set(int(l.split()[1]) for l in m["objs"] if l.startswith("O ") and l.split()[1] not in ("4", "13")))   # not Group: with Groups filtered out the core re-attaches NUMA nodes to a larger parent
             words = ["lD"] if rng.random() < 0.6 or not types else ["l" + rng.choice("DA") + "N" + str(rng.choice(types))]
         else:
             continue
@@ -525,7 +546,7 @@ def filter_pass(run, cases, model, cres, exe):
             run.violation("correspondence:numa-under-filters", "with filters %s the NUMA nodes of %r differ from the model's" % (w, d[:100]),
                           rtxt("impl: %s\nmodel: %s" % (got_m[:6], mod_m[:6])), no_input=True)
             continue
-        skip = set(struct) | removed | ({2} if (1 in removed or 1 in struct or 2 in struct) else set())
+        skip = set(struct) | removed | {13} | ({2} if (1 in removed or 1 in struct or 2 in struct) else set())
         a = sorted(l for l in f["objs"] if l.startswith("O ") and int(l.split()[1]) not in skip)
         b = sorted(l for l in m["objs"] if l.startswith("O ") and int(l.split()[1]) not in skip)
         present_removed = [l for l in f["objs"] if l.startswith("O ") and int(l.split()[1]) in removed]
@@ -704,6 +725,7 @@ def check(run, replay=None):
     judge(run, cases, model, cres, exe, drv, limit)
     spec_interleaving(run, cases, cres)
     spec_implicit_numa(run, cases, cres)
+    spec_level_indexes(run, cases, cres)
     spec_distinct_indexes(run, cases, cres, exe)
     filter_pass(run, cases, model, cres, exe)
     verbose_pass(run, cases, model, cres, exe)
